@@ -15,8 +15,8 @@ type c16Key struct{}
 // HarnessC16Envelope: unwrap(wrap(topic, m)) returns the destination topic and a message with the same
 // UUID, payload and metadata and the original context; an empty destination is rejected.
 func HarnessC16Envelope() {
-	m := message.NewMessage(vrt.Str("uuid"), message.Payload(vrt.Bytes("payload", 2)))
-	n := vrt.Int("nmeta", 0, 2)
+	m := message.NewMessage(vrt.Str("uuid"), message.Payload(vrt.Bytes("payload", vrt.Bound("maxpayload", 2))))
+	n := vrt.Int("nmeta", 0, vrt.Bound("maxmeta", 2))
 	for i := 0; i < n; i++ {
 		m.Metadata.Set(vrt.Str("k"+strconv.Itoa(i)), vrt.Str("v"+strconv.Itoa(i)))
 	}
